@@ -85,7 +85,7 @@ Lemma g6_step_w : forall c s i ch s' l,
 Proof.
   intros c s i ch s' l HI1 HI2 HI3 HG H Ht. unfold step_w in H.
   destruct (getw s i) as [pc|] eqn:Hg; [|discriminate]. unfold getw in Hg.
-  assert (Hscx : w_scx pc = true -> closed s = true) by (destruct (i1_w _ HI1 _ _ Hg) as (_ & _ & Hx); exact Hx).
+  assert (Hscx : w_scx pc = true -> conn s = false) by (intros Hx; eapply (i3_scx _ HI3); eauto).
   assert (Hlen : (i < length (ws s))%nat) by (apply nth_error_Some; congruence).
   pose proof (i3_c3 _ HI3) as Hc3.
   assert (Hk : forall (f : wpc -> bool) q, existsb f (ws s) = true -> f pc = false \/ f q = true ->
